@@ -49,7 +49,7 @@ func VerifC04URL() {
 	switch shape {
 	case 0:
 		raw = "https://" + VHostA + "/" + tail
-		if len(tail) == max && verifrt.Choice("escape", 2) == 1 {
+		if len(tail) == 2 && verifrt.Choice("escape", 2) == 1 {
 			raw = "https://" + VHostA + "/%" + tail // a percent-escape with arbitrary digits, e.g. %0a
 		}
 	case 1:
